@@ -494,11 +494,18 @@ def check_ins_method(case):
     w_src = lw[::-1] if expect_final else lw
     # the state subtracts its log-evidence from the weights
     zshift = float(np.abs(lw[np.isfinite(lw)]).max()) + math.log(N)
+    borderline = False
     if method != "rejection_sampling":
-        cnt = n if n is not None else math.floor(
-            ess_ref(w_src) * (1 - ess_tol(w_src, zshift)))
-        if cnt < 1:
+        if n is not None and n < 1:
+            # the method computes max() over the drawn weights for a log
+            # message: an explicit request for zero draws is outside what
+            # is asserted here
             return "skipped-empty-draw"
+        if n is None:
+            e_ref, t = ess_ref(w_src), ess_tol(w_src, zshift)
+            if math.floor(e_ref * (1 + t)) < 1:
+                return "skipped-empty-draw"
+            borderline = math.floor(e_ref * (1 - t)) < 1
     np.random.seed(case["seed"])
     try:
         with np.errstate(all="ignore"):
@@ -506,6 +513,8 @@ def check_ins_method(case):
                 obj, sampling_method=method, n=n,
                 use_final_samples=use_final)
     except Exception as e:
+        if borderline and isinstance(e, ValueError) and "zero-size" in str(e):
+            return "borderline-empty-draw"
         raise Violation(
             f"{type(e).__name__}:ImportanceNestedSampler."
             f"draw_posterior_samples:{method}", f"{e!r}", case)
@@ -551,7 +560,15 @@ def check_rolling(case):
 
 
 def check_case(case, counter=None):
+    from nessai import config
+
     counter = counter if counter is not None else {"binomial_tests": 0}
+    # per-process state nessai keeps: registry, eps, global generator
+    fresh = type(config.livepoints)()
+    vars(config.livepoints).clear()
+    vars(config.livepoints).update(vars(fresh))
+    config.general.eps = 1e-8
+    np.random.seed(int(case.get("seed", 0)) % (2**32))
     k = case["kind"]
     if k == "single":
         return check_single(case)
@@ -781,8 +798,8 @@ def shard(seed, n_single, n_freq, R, tile_rows, max_len):
                 cl.append("default-n:ess-fraction>=.5")
             if r == 0:
                 cl.append("default-n:zero-draws")
-        if r == "skipped-empty-draw":
-            cl.append("ins-method:skipped-empty-draw")
+        if r in ("skipped-empty-draw", "borderline-empty-draw"):
+            cl.append("ins-method:" + r)
             nt = False
         stats.case(_brief(case), nontrivial=nt, classes=cl)
 
